@@ -36,7 +36,7 @@ Definition dedup := dedup_aux [].
 Inductive ev :=
 | EField (parent : option str) (fdef : option sfield) (alias : option name) (n : name)
          (args : list argument) (dirs : list directive) (sl : option loc) (l : loc)
-| ESelSet (parent : option str) (sels : list selection)
+| ESelSet (parent : option str) (ssl : loc) (sels : list selection)
 | ESpread (parent : option str) (n : name) (dirs : list directive) (l : loc)
 | EInline (ity : option tref) (parent : option str) (tc : option ty) (dirs : list directive) (l : loc)
 | EDirective (where_ : str) (cf : option sfield) (d : directive).
@@ -67,9 +67,9 @@ Fixpoint sel_events (s : schema) (ty_ : option tref) (parent : option str) (cf :
       :: map (EDirective (S_ "FIELD") fdef) dirs
       ++ match sl with
          | None => []
-         | Some _ =>
+         | Some l0 =>
              let p' := sel_parent s fty in
-             ESelSet p' sub ::
+             ESelSet p' l0 sub ::
              (fix go (ss : list selection) : list ev :=
                 match ss with [] => [] | y :: ys => sel_events s fty p' fdef y ++ go ys end) sub
          end
@@ -83,7 +83,7 @@ Fixpoint sel_events (s : schema) (ty_ : option tref) (parent : option str) (cf :
       let p' := sel_parent s ity in
       EInline ity parent tc dirs l
       :: map (EDirective (S_ "INLINE_FRAGMENT") cf) dirs
-      ++ ESelSet p' sub ::
+      ++ ESelSet p' ssl sub ::
          (fix go (ss : list selection) : list ev :=
             match ss with [] => [] | y :: ys => sel_events s ity p' cf y ++ go ys end) sub
   end.
@@ -99,16 +99,16 @@ Definition op_root (s : schema) (k : op_kind) : option tref :=
 
 Definition def_events (s : schema) (d : definition) : list ev :=
   match d with
-  | DOperation k _ _ dirs _ sels _ =>
+  | DOperation k _ _ dirs ssl sels _ =>
       let ty_ := op_root s k in
       let p := sel_parent s ty_ in
       map (EDirective (op_loc_name k) None) dirs
-      ++ ESelSet p sels :: flat_map (sel_events s ty_ p None) sels
-  | DFragment _ _ tc dirs _ sels _ =>
+      ++ ESelSet p ssl sels :: flat_map (sel_events s ty_ p None) sels
+  | DFragment _ _ tc dirs ssl sels _ =>
       let ty_ := out_filter s (type_from_ast s tc) in
       let p := sel_parent s ty_ in
       map (EDirective (S_ "FRAGMENT_DEFINITION") None) dirs
-      ++ ESelSet p sels :: flat_map (sel_events s ty_ p None) sels
+      ++ ESelSet p ssl sels :: flat_map (sel_events s ty_ p None) sels
   | _ => []
   end.
 
